@@ -227,6 +227,132 @@ windowed_step!(c05_windowed_step_any_offset, None);
 //@ endfamily: x
 
 // ---------------------------------------------------------------------------------------------
+// Light windowed-update step (quick tier): the three branches of update_windowed on a state with a
+// symbolic window and at most one surprising value at a concrete table slot; the touched fields are
+// compared directly instead of rebuilding and comparing the whole matrix twice.
+// ---------------------------------------------------------------------------------------------
+
+fn popcount_bytes(w: &[u8; K]) -> u32 {
+    let mut n = 0u32;
+    let mut i = 0;
+    while i < K {
+        n += w[i].count_ones();
+        i += 1;
+    }
+    n
+}
+
+/// `o`: window offset (concrete). `surprise`: None = empty table; Some(slot) = one surprising value whose
+/// home slot in the 4-slot table is `slot` (a late 1 when o == 0, a late 1 or an early 0 otherwise).
+fn light_windowed_case(o: u8, surprise: Option<u32>) {
+    let window: [u8; K] = kani::any();
+    let mut slots = [u32::MAX; 4];
+    let mut sv_row = 0u32;
+    let mut sv_col = 0u32;
+    if let Some(h) = surprise {
+        // home slot = top two of the 10 key bits (row << 6 | col): the top two row bits
+        let low: u32 = kani::any();
+        kani::assume(low < 4);
+        sv_row = (h << 2) | low;
+        sv_col = kani::any();
+        kani::assume(sv_col < 64 && ((sv_col as u8) < o || (sv_col as u8) >= o + 8));
+        slots[h as usize] = (sv_row << 6) | sv_col;
+    }
+    let t = vt::raw_table(2, &slots);
+    let early_surprise = surprise.is_some() && (sv_col as u8) < o;
+    // coupons: early zone (all ones except a surprising zero) + window bits + a late surprising one
+    let late_one: u32 = if surprise.is_some() && !early_surprise { 1 } else { 0 };
+    let early_zero: u32 = if early_surprise { 1 } else { 0 };
+    let c0: u32 = 16 * (o as u32) + popcount_bytes(&window) + late_one - early_zero;
+    kani::assume(32 * c0 >= 3 * 16);
+    kani::assume(spec_offset(c0) == o);
+    // not the step that crosses the next window threshold: 8(C+1) < (27 + 8*offset) * K
+    kani::assume(8 * (c0 as u64 + 1) < (27 + 8 * o as u64) * 16);
+    let mut s = CpcSketch::new(4);
+    s.sliding_window = window.to_vec();
+    s.window_offset = o;
+    s.surprising_value_table = Some(t);
+    s.first_interesting_column = 0;
+    s.kxp = 8.0;
+    s.hip_est_accum = 100.0;
+    s.num_coupons = c0;
+    let row: u32 = kani::any();
+    let col: u32 = kani::any();
+    kani::assume(row < 16 && col < 64);
+    let rc = (row << 6) | col;
+    // model: was the bit (row, col) set before?
+    let in_window = (col as u8) >= o && (col as u8) < o + 8;
+    let is_sv = surprise.is_some() && row == sv_row && col == sv_col;
+    let was_set = if in_window {
+        window[row as usize] & (1u8 << (col as u8 - o)) != 0
+    } else if (col as u8) < o {
+        !is_sv // early zone: one unless it is the surprising zero
+    } else {
+        is_sv // late zone: zero unless it is the surprising one
+    };
+    s.row_col_update(rc);
+    assert!(s.num_coupons == c0 + if was_set { 0 } else { 1 }, "num_coupons is not the number of distinct (row, col) pairs");
+    assert!(s.window_offset == o, "window moved although the threshold was not crossed");
+    // the window: only the addressed bit may change
+    let mut r = 0;
+    while r < K {
+        let want = if in_window && r == row as usize { window[r] | (1u8 << (col as u8 - o)) } else { window[r] };
+        assert!(s.sliding_window[r] == want, "window byte changed wrongly");
+        r += 1;
+    }
+    // the surprising-value table: exactly the surprising values of the new matrix
+    let tab = s.surprising_value_table();
+    let holds_rc = vt::has(tab, rc);
+    if in_window {
+        assert!(vt::num_items_of(tab) == if surprise.is_some() { 1 } else { 0 });
+    } else if (col as u8) < o {
+        assert!(!holds_rc, "an early-zone bit that is now set is still listed as a surprising zero");
+    } else {
+        assert!(holds_rc, "a late-zone bit that is now set is not listed as a surprising one");
+    }
+    if surprise.is_some() && !(is_sv && (col as u8) < o) {
+        assert!(vt::has(tab, (sv_row << 6) | sv_col), "the other surprising value was lost");
+    }
+    kani::cover!(!was_set && in_window);
+    kani::cover!(o == 0 || !early_surprise || (!was_set && (col as u8) < o)); // a surprising zero is set
+    kani::cover!(o >= 56 || (!was_set && (col as u8) >= o + 8)); // a surprising one is added
+    kani::cover!(was_set);
+    core::mem::forget(s);
+}
+
+macro_rules! light_windowed {
+    ($name:ident, $o:expr, $sv:expr) => {
+        #[kani::proof]
+        #[kani::unwind(18)]
+        #[kani::stub(CpcSketch::move_window, cut_move_window)]
+        #[kani::stub(crate::cpc::pair_table::PairTable::rebuild, cut_rebuild)]
+        fn $name() {
+            light_windowed_case($o, $sv);
+        }
+    };
+}
+
+//@ family: light_windowed
+//@ props: C05 C17
+//@ tier: thorough
+//@ timeout: 1800
+//@ functions: cpc::sketch::CpcSketch::row_col_update
+//@ functions: cpc::sketch::CpcSketch::update_windowed
+//@ functions: cpc::sketch::CpcSketch::update_hip
+//@ functions: cpc::pair_table::PairTable::maybe_insert
+//@ functions: cpc::pair_table::PairTable::maybe_delete
+//@ unwind: 18
+//@ stubs: CpcSketch::move_window -> must-not-reach cut; PairTable::rebuild -> must-not-reach cut
+//@ bounds: lg_k = 4, windowed state with a concrete window offset per instance (0, 3, 56), all 16 window bytes symbolic, and either no surprising value or one (symbolic row within a quarter of the rows, symbolic column outside the window) at a concrete slot of the 4-slot table; coupon count consistent with offset and flavor; one symbolic (row, col); steps that move the window excluded (assumed away, self-checking cut)
+//@ assumes: representation invariant of a windowed sketch restricted to <= 1 surprising value (num_coupons = early-zone ones + window bits +/- the surprising value)
+//@ desc: one update in each zone (early-zone inverted logic, window bit, late surprising value): num_coupons grows exactly when the (row, col) bit was not set, only the addressed window bit changes, the surprising-value table lists exactly the surprising values of the new matrix, the offset stays
+light_windowed!(c05_windowed_update_light_offset_0, 0, None); //@ tier: quick
+light_windowed!(c05_windowed_update_light_offset_0_one_surprise, 0, Some(2)); //@ tier: quick
+light_windowed!(c05_windowed_update_light_offset_3_one_surprise, 3, Some(1)); //@ tier: quick
+light_windowed!(c05_windowed_update_light_offset_56_one_surprise, 56, Some(3)); //@ tier: quick
+//@ endfamily: x
+
+// ---------------------------------------------------------------------------------------------
 // serialization at sketch level (Empty / Sparse / Hybrid), wrapper agreement, update() derivation
 // ---------------------------------------------------------------------------------------------
 use crate::verif_kani_common::stub_format;
